@@ -1046,20 +1046,15 @@ func round7(w *World, r *Report, prop string) {
 				if _, isRet := b.Instrs[len(b.Instrs)-1].(*ssa.Return); !isRet || why != "" {
 					continue
 				}
-				through := false
-				for _, mb := range made {
-					through = through || mb == b || mb.Dominates(b)
-				}
-				if through {
-					continue
-				}
-				// otherwise: only when there is no range statement
-				msg := pcImplies(sym.PathCond(f.Blocks[0], b, nil), func(a *pcAtom) string {
-					if a.op == token.EQL && a.x != nil && a.y != nil && ((a.x == rng && isNilConst(a.y)) || (a.y == rng && isNilConst(a.x))) {
-						return "norange"
-					}
-					return ""
-				}, func(env map[string]bool) bool { return env["norange"] })
+				// every way to the exit passes createRangeBdry, or is taken only when there is no range statement
+				msg := waysPassOrExcused(sym, f, b, made, func(cond *pcF) string {
+					return pcImplies(cond, func(a *pcAtom) string {
+						if a.op == token.EQL && a.x != nil && a.y != nil && ((a.x == rng && isNilConst(a.y)) || (a.y == rng && isNilConst(a.x))) {
+							return "norange"
+						}
+						return ""
+					}, func(env map[string]bool) bool { return env["norange"] })
+				}, 0)
 				if msg != "" {
 					why = "an exit is reached with a range statement present and without createRangeBdry (" + msg + ")"
 				}
@@ -1129,19 +1124,14 @@ func round7(w *World, r *Report, prop string) {
 				if _, isRet := b.Instrs[len(b.Instrs)-1].(*ssa.Return); !isRet || why != "" {
 					continue
 				}
-				through := false
-				for _, tb := range tests {
-					through = through || tb == b || tb.Dominates(b)
-				}
-				if through {
-					continue
-				}
-				msg := pcImplies(sym.PathCond(f.Blocks[0], b, nil), func(a *pcAtom) string {
-					if a.op == token.EQL && a.x != nil && a.y != nil && ((a.x == stmt && isNilConst(a.y)) || (a.y == stmt && isNilConst(a.x))) {
-						return "nostmt"
-					}
-					return ""
-				}, func(env map[string]bool) bool { return env["nostmt"] })
+				msg := waysPassOrExcused(sym, f, b, tests, func(cond *pcF) string {
+					return pcImplies(cond, func(a *pcAtom) string {
+						if a.op == token.EQL && a.x != nil && a.y != nil && ((a.x == stmt && isNilConst(a.y)) || (a.y == stmt && isNilConst(a.x))) {
+							return "nostmt"
+						}
+						return ""
+					}, func(env map[string]bool) bool { return env["nostmt"] })
+				}, 0)
 				if msg != "" {
 					why = "an exit is reached with a status statement present and before the comparison (" + msg + ")"
 				}
@@ -2110,4 +2100,40 @@ func r8ChoiceRegistered(w *World, r *Report, rule string) {
 		why = "addChoice is not called"
 	}
 	r.Check(why == "", rule, "addChoiceToChoices registers every choice", f.Pos(), "addChoice(child) ⇔ child is a Choice", why+": under a filter that removes the nodes inside a choice's cases the choice itself vanishes from its parent, although the pruned unfiltered schema keeps it")
+}
+
+// waysPassOrExcused: every way from the entry of f to block b passes one of
+// the blocks in through, or is taken only under a condition excuse() accepts
+// ("" = accepted).  A join (the single exit of a function written with one
+// return) is decided predecessor by predecessor.  "" when that holds, else the
+// reason for the first way that neither passes nor is excused.
+func waysPassOrExcused(sym *Sym, f *ssa.Function, b *ssa.BasicBlock, through []*ssa.BasicBlock, excuse func(*pcF) string, depth int) string {
+	for _, tb := range through {
+		if tb == b || tb.Dominates(b) {
+			return ""
+		}
+	}
+	whole := excuse(sym.PathCond(f.Blocks[0], b, nil))
+	if whole == "" || len(b.Preds) < 2 || depth > 4 {
+		return whole
+	}
+	for _, p := range b.Preds {
+		passed := false
+		for _, tb := range through {
+			passed = passed || tb == p || tb.Dominates(p)
+		}
+		if passed {
+			continue
+		}
+		if msg := excuse(pcAndF(sym.PathCond(f.Blocks[0], p, nil), sym.edgeCond(p, b, nil))); msg != "" {
+			// the predecessor may itself be a join
+			if len(p.Preds) >= 2 {
+				if inner := waysPassOrExcused(sym, f, p, through, excuse, depth+1); inner == "" {
+					continue
+				}
+			}
+			return msg
+		}
+	}
+	return ""
 }
